@@ -7,7 +7,9 @@
 (* dereferences it, re-allocation clears, a branch where only one path      *)
 (* frees, free inside a loop, allocation inside a loop (class boundary),    *)
 (* de-duplication at a join (May # Must), pointers kept in a stack slot     *)
-(* under the x86-64 call discipline, and a clean program.  Every scenario   *)
+(* under the x86-64 call discipline, a clean program, flagged-in-callee,    *)
+(* second parameter of an extern call, callee that does not dereference,    *)
+(* flagging at the call kept behind it.  Every scenario                     *)
 (* is taken with the configuration {free} and with NO deallocation symbol   *)
 (* (then nothing may ever be reported).                                     *)
 (* TLC walks over the scenarios (one state each), checks the expectations   *)
@@ -44,7 +46,8 @@ Ext(name, params, rets) ==
 StdCc == [name |-> "__stdcall", params |-> <<V("RDI"), V("RSI"), V("RDX"), V("RCX"), V("R8"), V("R9")>>, fparams |-> <<>>,
           rets |-> <<V("RAX"), V("RDX")>>, frets |-> <<>>, saved |-> <<V("RBP"), V("RBX"), V("RSP"), V("R12"), V("R13")>>]
 Externs == <<Ext("malloc", <<RegArg("RDI")>>, <<RegArg("RAX")>>), Ext("free", <<RegArg("RDI")>>, <<>>),
-             Ext("puts", <<RegArg("RDI")>>, <<RegArg("RAX")>>)>>
+             Ext("puts", <<RegArg("RDI")>>, <<RegArg("RAX")>>),
+             Ext("memcmp", <<RegArg("RDI"), RegArg("RSI"), RegArg("RDX")>>, <<RegArg("RAX")>>)>>
 Regs == <<V("RAX"), V("RBX"), V("RDI"), V("RSI"), V("RDX"), V("RCX"), V("R8"), V("R9"), V("R10"), V("R12"), V("R13"), V("RBP"), V("RSP"), ZF>>
 Proj(arch, subs) == [program |-> [subs |-> subs, externs |-> Externs, entry_points |-> <<>>], sp |-> V("RSP"), regs |-> Regs,
                      arch |-> arch, cconvs |-> <<StdCc>>]
@@ -135,7 +138,27 @@ Scenarios == <<
                                                Blk("b2", <<Ld("d20", "R10", "RBX", 0)>>, <<JRet("r2")>>)>>),
                                  Sub("sub_g", <<Blk("g0", <<Cp("gd0", "RBX", "RDI")>>, <<JCall("gc0", "extern_free", "g1")>>),
                                                Blk("g1", <<Ld("gd1", "R10", "RBX", 0)>>, <<JRet("gr1")>>)>>)>>),
-   may |-> {W416("gd1")}, must |-> {W416("gd1")}, outclass |-> FALSE]
+   may |-> {W416("gd1")}, must |-> {W416("gd1")}, outclass |-> FALSE],
+  \* 13. every parameter of an extern call is checked: the first one points to a live object, the second one dangles
+  [name |-> "second parameter dangles",
+   project |-> Proj("aarch64", <<Sub("sub_f", <<Blk("b0", <<>>, <<JCall("c0", "extern_malloc", "b1")>>),
+                                               Blk("b1", <<Cp("d10", "RBX", "RAX")>>, <<JCall("c1", "extern_malloc", "b2")>>),
+                                               Blk("b2", <<Cp("d20", "R12", "RAX"), Cp("d21", "RDI", "RBX")>>, <<JCall("c2", "extern_free", "b3")>>),
+                                               Blk("b3", <<Cp("d30", "RDI", "R12"), Cp("d31", "RSI", "RBX")>>, <<JCall("c3", "extern_memcmp", "b4")>>),
+                                               Blk("b4", <<>>, <<JRet("r4")>>)>>)>>),
+   may |-> {W416("c3")}, must |-> {W416("c3")}, outclass |-> FALSE],
+  \* 14. a dangling pointer handed to a callee that only copies it: no access, nothing reported
+  [name |-> "dangling parameter of a callee that does not dereference it",
+   project |-> Proj("aarch64", <<Sub("sub_f", Prefix \o <<Blk("b2", <<Cp("d20", "RDI", "RBX")>>, <<JCall("c2", "sub_g", "b3")>>),
+                                                         Blk("b3", <<>>, <<JRet("r3")>>)>>),
+                                 Sub("sub_g", <<Blk("g0", <<Cp("gd0", "RAX", "RDI")>>, <<JRet("gr0")>>)>>)>>),
+   may |-> {}, must |-> {}, outclass |-> FALSE],
+  \* 15. the warning at the call flags the object: the caller's access behind the call is a duplicate
+  [name |-> "flagged at the call, used behind it",
+   project |-> Proj("aarch64", <<Sub("sub_f", Prefix \o <<Blk("b2", <<Cp("d20", "RDI", "RBX")>>, <<JCall("c2", "sub_g", "b3")>>),
+                                                         Blk("b3", <<Ld("d30", "R10", "RBX", 0)>>, <<JRet("r3")>>)>>),
+                                 Sub("sub_g", <<Blk("g0", <<Ld("gd0", "R10", "RDI", 0)>>, <<JRet("gr0")>>)>>)>>),
+   may |-> {W416("c2")}, must |-> {W416("c2")}, outclass |-> FALSE]
 >>
 
 Configs == <<{"free"}, {}>>
